@@ -131,9 +131,12 @@ class Injector:
     """a LocalFileSystem instance whose uploads fail for chosen oids"""
 
     def __init__(self):
-        from dvc_objects.fs.local import LocalFileSystem
+        from dvc_objects.fs.local import FsspecLocalFileSystem, LocalFileSystem
 
-        self.fs = LocalFileSystem()
+        # fsspec caches file system instances: a plain LocalFileSystem() would share ONE
+        # FsspecLocalFileSystem with every other store of the process, so that a patched
+        # put_file (and its set of failing ids) leaks into all later operations and cases.
+        self.fs = LocalFileSystem(fs=FsspecLocalFileSystem(skip_instance_cache=True))
         self.failing = set()
         self.attempted = []
         orig = self.fs.fs.put_file
@@ -885,10 +888,15 @@ def run(ctx):
                    not any("index-invented" in v.signature or "closure-lost" in v.signature
                            or "operation-removed" in v.signature for v in bad),
                    f"{len(h_items)} histories, index-soundness clause evaluated after every operation")
-    ctx.correspond("status", IMPORTS, "status_case", "run_status_case", st_items)
-    ctx.correspond("compare", IMPORTS, "compare_case", "run_compare_case", cmp_items)
+    # small shards: the three streams are evaluated by parallel coqc processes (real 32-character
+    # ids as gmap keys make one vm_compute of 200 cases take > 20 s in a single process)
+    quick = ctx.tier == "quick"
+    ctx.correspond("status", IMPORTS, "status_case", "run_status_case", st_items,
+                   shard=20 if quick else 100)
+    ctx.correspond("compare", IMPORTS, "compare_case", "run_compare_case", cmp_items,
+                   shard=10 if quick else 50)
     ctx.correspond("history", IMPORTS, "history_case", "run_history_case", h_items,
-                   shard=12 if ctx.tier == "quick" else 30)
+                   shard=12 if quick else 30)
 
 
 def replay_case(ctx, case):
